@@ -100,6 +100,14 @@ def ir_context(c):
     return c
 
 
+def yaml_scalar_text(x):
+    if isinstance(x, bool):
+        return "true" if x else "false"
+    if isinstance(x, (int, float)):
+        return str(x)
+    return x
+
+
 def ir_module(m):
     if not isinstance(m, dict):
         return m
@@ -111,6 +119,12 @@ def ir_module(m):
         m["env"] = {k: (pairs(v) if isinstance(v, dict) else v) for k, v in m["env"].items()}
     if isinstance(m.get("tasks"), dict):
         m["tasks"] = [[k, ir_task(v)] for k, v in m["tasks"].items()]
+    if isinstance(m.get("build"), dict):
+        # serde_yaml reads a scalar (1, true, 2.5) where a string is expected as its text: `out: [1]` names the output file `1`
+        b = m["build"] = dict(m["build"])
+        for k in ("out", "cmd"):
+            if isinstance(b.get(k), list):
+                b[k] = [yaml_scalar_text(x) for x in b[k]]
     return m
 
 
